@@ -128,6 +128,7 @@ def showOut : Out → String
   | .removed v f => s!"rm {optBytesToHex v} {boolStr f}"
   | .read a b => s!"v={optBytesToHex a} w={optBytesToHex b}"
   | .err e => "err:" ++ e
+  | .stampAhead v => s!"err:stampahead {v}"
   | .crashed => "crashed"
   | .dumped db => showDB db
   | .stress => "stress"
